@@ -12,6 +12,7 @@ import (
 	"io"
 	"net"
 	"os"
+	"runtime"
 	"sort"
 	"strings"
 	"sync"
@@ -166,16 +167,24 @@ func genMux(p *simkit.Plan, r *simkit.Rand, tier string) {
 			add(actor(side, r.Intn(nclients)), "muxclose")
 		}
 	}
-	if nclients >= 2 && r.Chance(1, 5) {
+	if nclients >= 2 && r.Chance(1, 3) {
 		// A half-close racing with a large write on the same stream end, issued
 		// by two different clients, over a carrier that holds write buffers back.
-		slot := r.Intn(nstreams)
+		// (On a stream of its own: the others may be closed by now.)
+		slot := 50
 		side := simkit.Pick(r, sides)
 		ensureOpen(slot)
 		c["wbuf"] = int64(simkit.Pick(r, []int{1, 1, 2}))
 		c["linkcap"] = int64(simkit.Pick(r, []int{8, 64, 0}))
-		add(writeActor(side, slot), "write", int64(slot), int64(r.Range(maxWrite/2+1, maxWrite+1)))
-		add(readActor(side, slot), "closewrite", int64(slot))
+		c["yields"] = c["yields"] | 8 // the writer can be parked between two blocks
+		if r.Chance(1, 2) {
+			// ... exactly between two data blocks of that write.
+			add(readActor(other[side], slot), "read", int64(slot), int64(maxWrite))
+			add(writeActor(side, slot), "write", int64(slot), int64(r.Range(maxWrite/2+1, maxWrite+1)), int64(r.Range(1, 2)))
+		} else {
+			add(writeActor(side, slot), "write", int64(slot), int64(r.Range(maxWrite/2+1, maxWrite+1)))
+			add(readActor(side, slot), "closewrite", int64(slot))
+		}
 		add(readActor(other[side], slot), "read", int64(slot), int64(maxWrite))
 	}
 	if (prof == "stall" || prof == "conform") && r.Chance(1, 6) {
@@ -252,6 +261,9 @@ type slot struct {
 	rdl, wdl                                           time.Time
 	sawEOF                                             bool
 	drained                                            bool
+	// halfCloseAtBlock > 0: another goroutine half-closes this stream end while
+	// the Write in progress is between its k-th and (k+1)-th data block.
+	halfCloseAtBlock int
 }
 
 type side struct {
@@ -341,9 +353,19 @@ func errClass(err error) string {
 func (h *harness) exec(sd *side, actor string, op simkit.Op) {
 	s := h.s
 	getSlot := func() *slot {
-		h.mu.Lock()
-		defer h.mu.Unlock()
-		return sd.slots[int(op.Int(0))]
+		// The stream may still be being established by another client of this
+		// side (opens and accepts take carrier round trips): wait for it a
+		// little in simulated time instead of dropping the operation.
+		for i := 0; ; i++ {
+			h.mu.Lock()
+			sl := sd.slots[int(op.Int(0))]
+			stop := h.stop
+			h.mu.Unlock()
+			if sl != nil || i >= 200 || stop || s.PassThrough() {
+				return sl
+			}
+			time.Sleep(time.Millisecond + 11*time.Microsecond)
+		}
 	}
 	switch op.Kind {
 	case "open", "accept":
@@ -396,6 +418,11 @@ func (h *harness) exec(sd *side, actor string, op simkit.Op) {
 		h.mu.Unlock()
 		for i := range data {
 			data[i] = pat(sl.sid, sd.name, base+i)
+		}
+		if k := int(op.Int(2)); k > 0 {
+			h.mu.Lock()
+			sl.halfCloseAtBlock = k
+			h.mu.Unlock()
 		}
 		h.begin(actor, "write", sd, sl, time.Time{}, n)
 		w, err := sl.st.Write(data)
@@ -619,6 +646,37 @@ func (h *harness) yield(site string) {
 	label := h.s.ActorLabel()
 	if label == "" {
 		return
+	}
+	if site == "multiplexing.write.block" {
+		h.mu.Lock()
+		op := h.inflight[label]
+		fire := false
+		var sl *slot
+		if op != nil && op.sl != nil && op.sl.halfCloseAtBlock > 0 {
+			sl = op.sl
+			sl.halfCloseAtBlock--
+			fire = sl.halfCloseAtBlock == 0 && !sl.cwInvoked && !sl.closeInvoked
+			if fire {
+				sl.cwInvoked = true
+			}
+		}
+		h.mu.Unlock()
+		if fire {
+			// A second goroutine calls CloseWrite right now, while this writer
+			// stands between two blocks; it is given the processor until it
+			// blocks (on the writer's deadline token), then the writer goes on.
+			// All inside one scheduler step: the closer ends when the Write does.
+			h.s.Count("probe.halfclose_between_blocks", 1)
+			go func() {
+				sl.st.CloseWrite()
+				h.mu.Lock()
+				sl.cwReturned = true
+				h.mu.Unlock()
+			}()
+			for i := 0; i < 30; i++ {
+				runtime.Gosched()
+			}
+		}
 	}
 	for i, ys := range yieldSites {
 		if ys == site && h.s.Plan.C("yields")&(1<<i) != 0 {
